@@ -458,23 +458,28 @@ REG.define("Q_else_f", dict(g="Graph", s="Filter", O="Bag[Filter]"), "exists(Dep
 REG.define("Q_else_r", dict(g="Graph", S="Bag[Filter]", o="Filter"), "exists(Dep, lambda d: other_rev_rel_d(g, S, o, d))")
 _EP = dict(g="Graph", S="Bag[Filter]", O="Bag[Filter]", subj="Bool", objs="Bag[Filter]")
 REG.lemma("E_realised", params=_EP, requires=[],
-          ensures=["exists(Dep, lambda x: G_realised_b(g, S, O, subj, x)) == exists(Filter, Filter, lambda s, o: (s in S) and (o in O) and Q_edge(g, s, o))"], properties=["C01", "C12"])
+          ensures=["exists(Dep, lambda x: G_realised_b(g, S, O, subj, x)) == some_edge(g, S, O)"], properties=["C01", "C12"])
 REG.lemma("E_abstract", params=_EP, requires=[],
-          ensures=["exists(Dep, lambda x: G_abstract_b(g, S, O, subj, x)) == exists(Filter, Filter, lambda s, o: (s in S) and (o in O) and not Q_edge(g, s, o))"], properties=["C01", "C12"])
+          ensures=["exists(Dep, lambda x: G_abstract_b(g, S, O, subj, x)) == some_missing_edge(g, S, O)"], properties=["C01", "C12"])
 REG.lemma("E_or_f", params=_EP, requires=[],
-          ensures=["exists(Dep, lambda x: G_or_f(g, S, O, x)) == exists(Filter, lambda s: (s in S) and Q_else_f(g, s, O))"], properties=["C01", "C12"])
+          ensures=["exists(Dep, lambda x: G_or_f(g, S, O, x)) == some_else_f(g, S, O)"], properties=["C01", "C12"])
 REG.lemma("E_or_r", params=_EP, requires=[],
-          ensures=["exists(Dep, lambda x: G_or_r(g, S, O, x)) == exists(Filter, lambda o: (o in O) and Q_else_r(g, S, o))"], properties=["C01", "C12"])
+          ensures=["exists(Dep, lambda x: G_or_r(g, S, O, x)) == some_else_r(g, S, O)"], properties=["C01", "C12"])
 REG.lemma("E_om_f", params=_EP, requires=[],
-          ensures=["exists(Dep, lambda x: G_om_f(g, S, O, objs, x)) == (nonempty(objs) and exists(Filter, lambda s: (s in S) and not Q_else_f(g, s, O)))"], properties=["C01", "C12"])
+          ensures=["exists(Dep, lambda x: G_om_f(g, S, O, objs, x)) == (nonempty(objs) and some_missing_else_f(g, S, O))"], properties=["C01", "C12"])
 REG.lemma("E_om_r", params=_EP, requires=[],
-          ensures=["exists(Dep, lambda x: G_om_r(g, S, O, objs, x)) == (nonempty(objs) and exists(Filter, lambda o: (o in O) and not Q_else_r(g, S, o)))"], properties=["C01", "C12"])
+          ensures=["exists(Dep, lambda x: G_om_r(g, S, O, objs, x)) == (nonempty(objs) and some_missing_else_r(g, S, O))"], properties=["C01", "C12"])
 # S/O: importers/importees, objs: objects as specified by the user, subj: importer is the rule subject
-REG.macro("some_edge", ["g", "S", "O"], "exists(Filter, Filter, lambda s, o: (s in S) and (o in O) and Q_edge(g, s, o))")
-REG.macro("some_missing_edge", ["g", "S", "O"], "exists(Filter, Filter, lambda s, o: (s in S) and (o in O) and not Q_edge(g, s, o))")
-REG.macro("some_else", ["g", "S", "O", "subj"], "exists(Filter, lambda s: (s in S) and Q_else_f(g, s, O)) if subj else exists(Filter, lambda o: (o in O) and Q_else_r(g, S, o))")
+_SP = dict(g="Graph", S="Bag[Filter]", O="Bag[Filter]")
+REG.define("some_edge", _SP, "exists(Filter, Filter, lambda s, o: (s in S) and (o in O) and Q_edge(g, s, o))")
+REG.define("some_missing_edge", _SP, "exists(Filter, Filter, lambda s, o: (s in S) and (o in O) and not Q_edge(g, s, o))")
+REG.define("some_else_f", _SP, "exists(Filter, lambda s: (s in S) and Q_else_f(g, s, O))")
+REG.define("some_else_r", _SP, "exists(Filter, lambda o: (o in O) and Q_else_r(g, S, o))")
+REG.define("some_missing_else_f", _SP, "exists(Filter, lambda s: (s in S) and not Q_else_f(g, s, O))")
+REG.define("some_missing_else_r", _SP, "exists(Filter, lambda o: (o in O) and not Q_else_r(g, S, o))")
+REG.macro("some_else", ["g", "S", "O", "subj"], "(subj and some_else_f(g, S, O)) or ((not subj) and some_else_r(g, S, O))")
 REG.macro("some_missing_else", ["g", "S", "O", "subj", "objs"],
-          "nonempty(objs) and (exists(Filter, lambda s: (s in S) and not Q_else_f(g, s, O)) if subj else exists(Filter, lambda o: (o in O) and not Q_else_r(g, S, o)))")
+          "nonempty(objs) and ((subj and some_missing_else_f(g, S, O)) or ((not subj) and some_missing_else_r(g, S, O)))")
 REG.macro("viol_Q", ["g", "u", "b"],
           "(b.should_not and (not b.behavior_exception) and some_edge(g, u._importers, u._importees)) or "
           "(b.should and (not b.behavior_exception) and some_missing_edge(g, u._importers, u._importees)) or "
@@ -482,7 +487,7 @@ REG.macro("viol_Q", ["g", "u", "b"],
           "(b.should and b.behavior_exception and some_missing_else(g, u._importers, u._importees, u._importer_specified_as_rule_subject, u._importees_as_specified_by_user)) or "
           "(b.should_only and b.behavior_exception and (some_missing_else(g, u._importers, u._importees, u._importer_specified_as_rule_subject, u._importees_as_specified_by_user) or some_edge(g, u._importers, u._importees))) or "
           "(b.should_not and b.behavior_exception and some_else(g, u._importers, u._importees, u._importer_specified_as_rule_subject))")
-_QOPQ = ["Q_edge", "Q_else_f", "Q_else_r"]
+_QOPQ = ["Q_edge", "Q_else_f", "Q_else_r", "some_edge", "some_missing_edge", "some_else_f", "some_else_r", "some_missing_else_f", "some_missing_else_r"]
 _UMR = "umr_of(evaluable._graph, self._module_requirement)"
 _E_USES = [f"{L}(evaluable._graph, {_UMR}._importers, {_UMR}._importees, {_UMR}._importer_specified_as_rule_subject, {_UMR}._importees_as_specified_by_user)"
            for L in ("E_realised", "E_abstract", "E_or_f", "E_or_r", "E_om_f", "E_om_r")]
